@@ -148,7 +148,7 @@ def run(ctx, payloads, add):
                    "model": {"err": inst["merr"], "fails": sorted(inst["mfails"])}})
         jobs.append((cid, payloads[cid]))
     SCOPE.update({"cfg": cfg, "states": len(res.printed), "behaviours_replayed": len(jobs)})
-    return core.parallel_map(replay_job, jobs, chunksize=8)
+    return core.parallel_map(replay_job, jobs, chunksize=8)      # small meshes: a few kB per behaviour
 
 
 def compare(ctx, verdicts, payloads):
